@@ -56,7 +56,8 @@ def required(tier):
                         'history:missing-day-retried-then-file-arrives',
                         'data-dir:percent-sign-in-path',
                         'date:iso-week-year-differs-from-calendar-year',
-                        'data-dir:relative-path'],
+                        'data-dir:relative-path', 'file:unused-variable-with-missing-cells',
+                        'file:incomplete-day:missing-hour-refused'],
             'evaluations': 800}
 
 
@@ -101,7 +102,7 @@ def write_file(path: Path, fld: Field, rng):
     lons = lon0 + np.arange(11) * 0.5
     P, LA, LO = np.meshgrid(levels, lats, lons, indexing='ij')
     if fld.timed:
-        hours = np.arange(24)
+        hours = np.arange(getattr(fld, 'n_hours', 24))
         u = np.stack([fld.uv(P, LA, LO, h)[0] * np.ones_like(P) for h in hours])
         v = np.stack([fld.uv(P, LA, LO, h)[1] * np.ones_like(P) for h in hours])
         times = _day64(path) + hours * np.timedelta64(1, 'h')
@@ -113,7 +114,12 @@ def write_file(path: Path, fld: Field, rng):
         v = fld.uv(P, LA, LO, 0)[1] * np.ones_like(P)
         dims = ('pressure_level', 'latitude', 'longitude')
         coords = {'pressure_level': levels, 'latitude': lats, 'longitude': lons}
-    ds = xr.Dataset({'u': (dims, u), 'v': (dims, v), 't': (dims, np.full_like(u, 250.0))},
+    tvar = np.full_like(u, 250.0)
+    if getattr(fld, 'masked_t', False):
+        # the (unused) temperature field has missing cells, e.g. masked below ground
+        tvar[..., : tvar.shape[-2] // 2 + 1, :] = np.nan
+        tvar[..., 0:3, :, :] = np.nan
+    ds = xr.Dataset({'u': (dims, u), 'v': (dims, v), 't': (dims, tvar)},
                     coords=coords)
     ds.to_netcdf(path)
     ds.close()
@@ -195,6 +201,11 @@ def run_shard(spec, rec):
             kind = rng.choice(['uniform', 'affine', 'affine', 'zero'])
             timed = rng.random() < 0.5
             fld = Field(rng, kind, timed)
+            fld.masked_t = rng.random() < 0.3
+            # an incomplete day: fewer than 24 hourly fields in the file
+            fld.n_hours = rng.choice([24, 24, 24, 6, 13]) if timed else 24
+            if fld.masked_t:
+                rec.cls('file:unused-variable-with-missing-cells')
             # directory names a user may have: plain, URL-encoded blank, strftime-like, percent
             dname = [f'w{k}', f'ERA5%20data{k}', f'%Y%m%d_{k}', f'100%_{k}', f'w {k} b'][k % 5]
             # (one case in four: under a working directory that is NOT on the AEIC search path,
@@ -224,8 +235,25 @@ def run_shard(spec, rec):
                 wx = Weather(d)
             rec.cls(f'field:{kind}', 'time-axis:' + ('yes' if timed else 'no'))
             try:
+                if timed and fld.n_hours < 24:
+                    # an hour the file does not hold is refused, never answered with another hour
+                    la_, lo_ = (lat_lo + lat_hi) / 2, (lon_lo + lon_hi) / 2
+                    for hour_x in (fld.n_hours, 23, rng.randint(fld.n_hours, 23)):
+                        tx = pd.Timestamp(f'{I0}T{hour_x:02d}:30:00Z')
+                        rec.ev()
+                        try:
+                            gx = query(wx, tx, la_, lo_, h_of_p(500.0), 150.0, 45.0, True)
+                            raise Mismatch('an hour that the weather file does not hold was '
+                                           'answered (with another hour\'s winds) instead of '
+                                           'refused', {'k': k, 'hours_in_file': fld.n_hours,
+                                                       'hour': hour_x, 'got': gx})
+                        except Mismatch:
+                            raise
+                        except Exception:  # noqa: BLE001
+                            pass
+                    rec.cls('file:incomplete-day:missing-hour-refused')
                 for q in range(6):
-                    hour = rng.randint(0, 23)
+                    hour = rng.randint(0, fld.n_hours - 1) if timed else rng.randint(0, 23)
                     t = pd.Timestamp(f'{I0}T{hour:02d}:{rng.randint(0, 59):02d}:00Z')
                     lat = rng.uniform(lat_lo, lat_hi)
                     lon = rng.uniform(lon_lo, lon_hi)
@@ -269,7 +297,7 @@ def run_shard(spec, rec):
                         rec.cls('sub:no-wind')
                     if timed and fld.cu[4] != 0:
                         # a different hour must give the other hour's field
-                        h2 = (hour + rng.randint(1, 23)) % 24
+                        h2 = (hour + rng.randint(1, 23)) % fld.n_hours
                         t2 = pd.Timestamp(f'{I0}T{h2:02d}:30:00Z')
                         u2, v2 = fld.uv(p, lat, lon, h2)
                         got2 = query(wx, t2, lat, lon, alt, tas, 45.0, explicit)
@@ -329,7 +357,7 @@ def run_shard(spec, rec):
                 if timed:
                     fld_b = Field(rng, 'uniform', True)
                     write_file_same_grid(d / f'{F1}.nc', fld_b, lat_lo, lat_hi, lon_lo, lon_hi)
-                    hour = rng.randint(0, 23)
+                    hour = rng.randint(0, (fld.n_hours if timed else 24) - 1)
                     la, lo_ = (lat_lo + lat_hi) / 2, (lon_lo + lon_hi) / 2
                     for day, f in ((I0, fld), (I1, fld_b), (I0, fld), (I1, fld_b)):
                         tq = pd.Timestamp(f'{day}T{hour:02d}:10:00Z')
@@ -341,7 +369,7 @@ def run_shard(spec, rec):
                     rec.cls('history:same-hour-different-date')
                 # ---- one Weather object: a day whose file is missing, retried, file arrives ----
                 la, lo_ = (lat_lo + lat_hi) / 2, (lon_lo + lon_hi) / 2
-                hour = rng.randint(0, 23)
+                hour = rng.randint(0, (fld.n_hours if timed else 24) - 1)
                 t_ok = pd.Timestamp(f'{I0}T{hour:02d}:20:00Z')
                 t_missing = pd.Timestamp(f'{I4}T{hour:02d}:20:00Z')
                 u0, v0 = fld.uv(500.0, la, lo_, hour if timed else 0)
@@ -370,7 +398,7 @@ def run_shard(spec, rec):
                       '(heading 45)', {'k': k})
                 rec.cls('history:missing-day-retried-then-file-arrives')
                 # ---- refusals outside the domain --------------------------------------------
-                t = pd.Timestamp(f'{I0}T10:00:00Z')
+                t = pd.Timestamp(f'{I0}T02:00:00Z')
                 mid = ((lat_lo + lat_hi) / 2, (lon_lo + lon_hi) / 2, h_of_p(500.0))
                 outs = [('lat', (lat_hi + rng.uniform(0.01, 20), mid[1], mid[2])),
                         ('lat', (lat_lo - rng.uniform(0.01, 20), mid[1], mid[2])),
